@@ -89,6 +89,12 @@ structure Case where
   redir : Bool := false
   rspRedir : Bool := false
   lim : Nat := 0
+  /-- round 4: volleys (mode=vol), expect-continue-timeout, `shared-client {enabled: false, client-number: n}`, the documented
+  full config (every transport option written with the value docs/eng/http-generator.md prints) -/
+  vol : Bool := false
+  ect : Option Int := none
+  shoff : Option Int := none
+  doc : Bool := false
 
 def parseFormat : String → Option Format
   | "uri" => some .uri
@@ -139,13 +145,23 @@ def parseCase (kv : List (String × String)) : Option Case := do
     | "" | "-" => some (some (20000 : Int))
     | "def" => some none
     | v => v.toInt?.map some
+  let doc := getS kv "doc" == "1"
+  -- the documented full config gives every option a value; what the case says itself stands
+  let docOr (o : Option Int) (d : Int) : Option Int := if doc then (o.orElse fun _ => some d) else o
+  let hs := if doc ∧ (getS kv "hs" == "" ∨ getS kv "hs" == "-") then some (1000 : Int) else hs
+  let shoff0 ← optInt kv "shoff"
+  let shoff := if doc ∧ shoff0.isNone ∧ (getS kv "shared").toNat?.getD 0 = 0 then some (1 : Int) else shoff0
   pure { f := f, ssl := getS kv "ssl" == "1", srvTls := getS kv "srv" == "tls", ka := getS kv "ka" == "1",
          inst := inst, tgt := getS kv "tgt", passes := passes, conf := conf, items := items,
          gun := gun, pre := getS kv "pre" == "1", par := getS kv "mode" == "par", sched := sched,
          gap := (getS kv "gap").toNat?.getD 0, delay := (getS kv "delay").toNat?.getD 0,
-         idle := ← optInt kv "idle", rht := ← optInt kv "rht", mic := ← optInt kv "mic", mich := ← optInt kv "mich",
+         idle := docOr (← optInt kv "idle") 90000, rht := docOr (← optInt kv "rht") 0, mic := docOr (← optInt kv "mic") 0,
+         mich := docOr (← optInt kv "mich") 2,
          hs := hs, shared := (getS kv "shared").toNat?.getD 0, redir := getS kv "redir" == "1",
-         rspRedir := getS kv "rsp" == "redir", lim := (getS kv "lim").toNat?.getD 0 }
+         rspRedir := getS kv "rsp" == "redir", lim := (getS kv "lim").toNat?.getD 0,
+         vol := getS kv "mode" == "vol", ect := docOr (← optInt kv "ect") 1000,
+         shoff := shoff,
+         doc := doc }
 
 def parseRecHdr (s : String) : Option (Str × List Str) :=
   match s.splitOn ":" with
@@ -261,7 +277,8 @@ def transportOpts (c : Case) : List TransportOpt :=
   (match c.idle with | some v => [("idle-conn-timeout", v * msec)] | none => []) ++
   (match c.rht with | some v => [("response-header-timeout", v * msec)] | none => []) ++
   (match c.mic with | some v => [("max-idle-conns", v)] | none => []) ++
-  (match c.mich with | some v => [("max-idle-conns-per-host", v)] | none => [])
+  (match c.mich with | some v => [("max-idle-conns-per-host", v)] | none => []) ++
+  (match c.ect with | some v => [("expect-continue-timeout", v * msec)] | none => [])
 
 /-- `x` (ns) is too close to the limit `lim` (ns, > 0) for a wall-clock observation: inside (0.4·lim, 1.25·lim) -/
 def nearLimit (lim : Int) (x : Nat) : Bool :=
@@ -272,6 +289,20 @@ of the bufio.Scanner the uri decoder reads its lines with (the other three forma
 def uriLineNear64k (c : Case) : Bool :=
   c.f == .uri && c.items.any fun it =>
     decide (it.ent.uri.length ≥ 65000) || it.hdrs.any fun kv => decide (kv.1.length + kv.2.length ≥ 65000)
+
+/-- mode=vol with a shared transport: what transport `cl` sees of the volleys (`inst` consecutive shots each; shot `j` goes
+to gun `j % inst`); `last` = index of the latest volley in which it carried a request -/
+def volleysOf (c : Case) (pool : Option Int) (cl : Nat) (marks : List (Bool × Bool)) : List Volley :=
+  let nVol := (marks.length + c.inst - 1) / c.inst
+  ((List.range nVol).foldl (fun (acc : List Volley × Option Nat) v =>
+    let mine := ((marks.drop (v * c.inst)).take c.inst).zipIdx.filter fun p => transportOfGun pool p.2 == cl && p.1.1
+    let k := mine.length
+    let closing := (mine.filter fun p => p.1.2).length
+    let pause := match acc.2 with
+      | none => 0
+      | some l => (v - l) * c.gap * 1000000 + (v - l - 1) * c.delay * 1000000
+    (acc.1 ++ [{ k := k, closing := closing, pause := pause, delay := c.delay * 1000000 }],
+     if k = 0 then acc.2 else some v)) ([], none)).1
 
 def handleRun (c : Case) (impl : String) : String × String :=
   if impl.startsWith "ENV" then ("-", "skip:env")
@@ -295,6 +326,8 @@ def handleRun (c : Case) (impl : String) : String × String :=
     -- and the scheduler decide; followed redirects: the http2 gun refuses the plain decoy's answer, the connect gun asks its
     -- tunnel end for the decoy
     if c.shared ≠ 0 ∧ c.par then ("-", "skip:shared-client-parallel") else
+    -- volleys over a shared transport are predicted only when the requests of a volley overlap for sure (the target waits)
+    if c.shared ≠ 0 ∧ c.vol ∧ c.delay < 100 then ("-", "skip:shared-client-volleys-without-overlap") else
     if c.redir ∧ c.rspRedir ∧ c.gun ≠ .http then ("-", "skip:followed-redirect-through-h2-or-tunnel") else
     -- a followed redirect makes the gun's transport hold a connection to a SECOND host: with `max-idle-conns: 1` (all hosts
     -- together) the idle connection to the target is evicted by the decoy's — the operator's own two demands, not modelled
@@ -305,11 +338,17 @@ def handleRun (c : Case) (impl : String) : String × String :=
     if c.gun = .http2 ∧ names.any isH2Awkward then ("-", "skip:h2-connection-specific-or-cookie-header") else
     if !(shots.all connInGrammar) then ("-", "skip:connection-header-outside-grammar") else
     let arrived := shots.map fun s => sendable s && (c.srvTls == c.ssl)
-    let gunsOf := (List.range shots.length).map (gunOf c.inst c.sched)
-    -- shared-client: the transports are the pool's clients, the k-th gun uses client (k+1) % client-number
-    let gunsOf := if c.shared ≠ 0 then gunsOf.map (clientOf c.shared) else gunsOf
-    let pools := if c.shared ≠ 0 then max c.shared 1 else c.inst
-    let pauses := pausesFrom (c.gap * 1000000) c.par (gunsOf.zip arrived) 0 []
+    let conc := c.par || c.vol
+    let gunsOf0 := (List.range shots.length).map (gunOf c.inst (if c.vol then [] else c.sched))
+    -- shared-client: `enabled` decides (prepareClientPool); the transports are then the pool's clients, the k-th gun uses client
+    -- (k+1) % client-number; with `enabled: false` every gun keeps its own client whatever the number says
+    let pool := sharedPool (c.shared ≠ 0) (if c.shared ≠ 0 then (c.shared : Int) else c.shoff.getD 0)
+    let sharedVol := pool.isSome && c.vol
+    let gunsOf := if sharedVol then gunsOf0 else gunsOf0.map (transportOfGun pool)
+    let pools := match pool with
+      | none => c.inst
+      | some n => if sharedVol then c.inst else n.toNat
+    let pauses := pausesFrom (c.gap * 1000000) conc (gunsOf.zip arrived) 0 []
     let flights := ((shots.zip arrived).zip (gunsOf.zip pauses)).map fun (p, gp) =>
       ({ gun := gp.1, arrived := p.2, close := p.1.close, pause := gp.2, delay := c.delay * 1000000 } : TFlight)
     let tr := transportOf (transportOpts c)
@@ -325,8 +364,21 @@ def handleRun (c : Case) (impl : String) : String × String :=
     let major := if c.gun = .http2 then 2 else 1
     let arrivedShots := (shots.zip arrived).filterMap fun p => if p.2 then some p.1 else none
     let rendered := arrivedShots.map (renderShot major)
-    let rendered := if c.par then (sortKeyed (rendered.map fun r => (r, ()))).map (·.1) else rendered
-    let model := s!"n={arrivedShots.length} shots={shots.length} conns={tconnRun tr pools flights} run={if st = .ok then "ok" else "err"} tun={if c.gun = .connect then "ok" else "-"} decoy={decoyHits c.redir c.rspRedir arrivedShots.length} tm=ok reqs={String.intercalate "|" rendered}"
+    let rendered := if conc then (sortKeyed (rendered.map fun r => (r, ()))).map (·.1) else rendered
+    -- connections: per-gun (per-client) pools; volleys over shared transports: the volley pool of every client, an upper bound
+    -- that the implementation reaches when the requests of a volley really overlap — accepted down to the floor (as many
+    -- connections as requests in flight at once), since a starved dial is served by a connection that just came back
+    let connsModel :=
+      if sharedVol then
+        let marks := arrived.zip (shots.map (·.close))
+        let perClient := (List.range ((pool.getD 1).toNat)).map fun cl => volleysOf c pool cl marks
+        let upper := (perClient.map (vpoolRun tr)).foldl (· + ·) 0
+        let lower := (perClient.map volleyFloor).foldl (· + ·) 0
+        match (parseObs (parseKV impl)).map (·.conns) with
+        | some n => if lower ≤ n ∧ n ≤ upper then n else upper
+        | none => upper
+      else tconnRun tr pools flights
+    let model := s!"n={arrivedShots.length} shots={shots.length} conns={connsModel} run={if st = .ok then "ok" else "err"} tun={if c.gun = .connect then "ok" else "-"} decoy={decoyHits c.redir c.rspRedir arrivedShots.length} tm=ok reqs={String.intercalate "|" rendered}"
     let verdict :=
       if confH.any (fun kv => !tokenName kv.1 || !kv.2.all cleanValue) then "skip:malformed-option" else
       match wantsOfPass c conf (hostWithoutPort g.target) c.items [] with
@@ -338,14 +390,16 @@ def handleRun (c : Case) (impl : String) : String × String :=
           let wants := repeatList ws c.passes
           let wants := if c.lim ≠ 0 then wants.take c.lim else wants
           -- par mode: the recorded requests are reported sorted; align the expectations the same way
-          let wants := if c.par ∧ wants.length = shots.length then
+          let wants := if conc ∧ wants.length = shots.length then
               (sortKeyed ((shots.map (renderShot major)).zip wants)).map (·.2)
             else wants
           let arrivedFl := flights.filter (·.arrived)
           let maxPause := arrivedFl.foldl (fun m f => max m f.pause) 0
           let maxDelay := if arrivedFl.isEmpty then 0 else c.delay * 1000000
           let ro : ReuseOpts := { idle := c.idle.map (· * 1000000), rht := c.rht.map (· * 1000000), mic := c.mic, mich := c.mich }
-          judge wants (c.srvTls == c.ssl) c.ka c.inst o (reuseExpected ro maxPause maxDelay) c.redir
+          -- the keep-alive clause speaks of per-instance clients: several guns shooting at once over ONE enabled shared transport
+          -- are outside it (net/http keeps two idle connections per host: see C09_shared_volley_bound_counterexample)
+          judge wants (c.srvTls == c.ssl) c.ka c.inst o (reuseExpected ro maxPause maxDelay && !sharedVol) c.redir
     (model, verdict)
 
 def handle : Handler := fun input impl =>
